@@ -200,34 +200,25 @@ Proof.
 Qed.
 
 (* one history block *)
-Lemma scan_block_spec i f hc X : f <> 0 -> hc < 2 ^ 64 -> forall b skipped,
-  hc - skipped = N.of_nat (length (b ++ X)) -> (b ++ X <> [] -> skipped < hc) ->
+Lemma scan_block_spec i f hc X : f <> 0 -> forall b skipped,
+  hc - skipped = N.of_nat (length (b ++ X)) ->
   match scan_block i f hc skipped b with
   | BFound r => scanl i f (b ++ X) = Some r
   | BNotFound => scanl i f (b ++ X) = None
-  | BCont s => scanl i f (b ++ X) = scanl i f X /\ s = skipped + N.of_nat (length b) /\
-               Forall (fun x => ~ hit i f x) b
+  | BCont s => scanl i f (b ++ X) = scanl i f X /\ s = skipped + N.of_nat (length b)
   end.
 Proof.
-  intros Hf Hhc. induction b as [|[v t] r IH]; intros skipped Hs Hlt.
-  - simpl. repeat split; auto. lia.
+  intros Hf. induction b as [|[v t] r IH]; intros skipped Hs.
+  - simpl. split; auto. lia.
   - cbn [scan_block]. rewrite <- app_comm_cons. cbn [scanl].
     destruct (N.eqb_spec f 0) as [E0 | E0]; [congruence|]. cbn [orb].
     destruct (N.ltb_spec t i) as [L1 | L1]; auto.
-    rewrite <- app_comm_cons in Hs, Hlt. cbn [length] in Hs.
-    specialize (Hlt ltac:(discriminate)).
+    rewrite <- app_comm_cons in Hs. cbn [length] in Hs.
     destruct (N.leb_spec t f) as [L2 | L2].
-    + f_equal. f_equal. cbn [length]. rewrite <- Hs.
-      replace (hc + 2 ^ 64 - skipped) with (hc - skipped + 1 * 2 ^ 64) by lia.
-      rewrite N.mod_add by (apply N.pow_nonzero; lia).
-      symmetry. apply N.mod_small. lia.
-    + assert (Hlt' : r ++ X <> [] -> skipped + 1 < hc).
-      { intros Hn. assert (1 <= length (r ++ X))%nat by (destruct (r ++ X); [congruence | simpl; lia]). lia. }
-      specialize (IH (skipped + 1) ltac:(lia) Hlt').
+    + f_equal. f_equal. cbn [length]. symmetry. exact Hs.
+    + specialize (IH (skipped + 1) ltac:(lia)).
       destruct (scan_block i f hc (skipped + 1) r); auto.
-      destruct IH as (I1 & I2 & I3). repeat split; auto.
-      * cbn [length]. lia.
-      * constructor; auto. unfold hit; simpl. lia.
+      destruct IH as (I1 & I2). split; auto. cbn [length]. lia.
 Qed.
 
 Lemma skipn_cons_nth {A} (l : list A) idx b rest d :
@@ -238,31 +229,29 @@ Proof.
   - apply IH; auto.
 Qed.
 
-(* the chain of the key's own blocks: as long as a version not newer than finalTs (or older than
-   initialTs) exists in what is left of the chain, the loop ends inside the chain *)
-Lemma scan_blocks_spec i f hc blocks h0 : f <> 0 -> hc < 2 ^ 64 ->
+(* the loop over the key's own chain of blocks (it never leaves the chain: the guard
+   skippedUpdates < hCount fails exactly when the chain is used up) *)
+Lemma scan_blocks_spec i f hc blocks h0 : f <> 0 ->
   forall rem idx iters skipped,
   skipn idx blocks = rem -> Forall (fun b => b <> []) rem -> (length rem <= iters)%nat ->
-  hc - skipped = N.of_nat (length (concat rem)) -> (concat rem <> [] -> skipped < hc) ->
-  Exists (hit i f) (concat rem) ->
+  hc - skipped = N.of_nat (length (concat rem)) -> skipped <= hc ->
   scan_blocks iters idx blocks h0 i f hc skipped = scanl i f (concat rem).
 Proof.
-  intros Hf Hhc. induction rem as [|b rest IH]; intros idx iters skipped Hsk Hne Hit Hs Hlt Hex.
-  - simpl in Hex. inversion Hex.
+  intros Hf. induction rem as [|b rest IH]; intros idx iters skipped Hsk Hne Hit Hs Hle.
+  - simpl in *. destruct iters as [|n]; [reflexivity|]. cbn [scan_blocks].
+    destruct (N.ltb_spec skipped hc); [lia | reflexivity].
   - destruct iters as [|n]; [simpl in Hit; lia|]. cbn [scan_blocks].
+    apply Forall_cons_iff in Hne as [Hb Hne]. cbn [concat] in *.
+    assert (1 <= length (b ++ concat rest))%nat by (destruct b; [congruence | simpl; lia]).
+    destruct (N.ltb_spec skipped hc) as [L | L]; [|lia].
     destruct (skipn_cons_nth blocks idx b rest h0 Hsk) as [En Esk]. rewrite En.
-    cbn [concat] in *.
-    pose proof (scan_block_spec i f hc (concat rest) Hf Hhc b skipped Hs Hlt) as P.
+    pose proof (scan_block_spec i f hc (concat rest) Hf b skipped Hs) as P.
     destruct (scan_block i f hc skipped b) as [r | | s]; auto.
-    destruct P as (P1 & P2 & P3). rewrite P1.
-    apply Forall_cons_iff in Hne as [Hb Hne].
+    destruct P as (P1 & P2). rewrite P1.
     apply IH; auto.
     + simpl in Hit. lia.
     + rewrite app_length in Hs. lia.
-    + intros Hn. rewrite app_length in Hs.
-      assert (1 <= length (concat rest))%nat by (destruct (concat rest); [congruence | simpl; lia]). lia.
-    + apply Exists_app in Hex as [Hex | Hex]; auto. exfalso.
-      apply Exists_exists in Hex as (x & Hx & Hh). rewrite Forall_forall in P3. apply (P3 x Hx Hh).
+    + rewrite app_length in Hs. lia.
 Qed.
 
 Lemma concat_length_ge {A} (l : list (list A)) :
@@ -273,12 +262,12 @@ Proof.
   destruct b; [congruence | simpl; lia].
 Qed.
 
-Lemma lv_between_partial maxkey maxval h0 lv i f :
-  lv_ok maxkey maxval lv -> lv_history_count lv < 2 ^ 64 ->
-  f = 0 \/ f < i \/ Exists (fun x => snd x <= f) (lv_all lv) ->
+(* lastUpdateBetween is the scan over all versions of the key, whatever block 0 holds *)
+Lemma lv_between_spec maxkey maxval h0 lv i f :
+  lv_ok maxkey maxval lv ->
   lv_between h0 lv i f = (if f <? i then None else scanl i f (lv_all lv)).
 Proof.
-  intros (Ht & _ & _ & _ & Hb) Hlim Hc. unfold lv_between.
+  intros (Ht & _ & _ & _ & Hb). unfold lv_between.
   destruct (N.ltb_spec f i) as [Lfi | Lfi]; auto.
   destruct (N.eq_dec f 0) as [-> | Hf].
   - (* finalTs = 0: the newest version *)
@@ -287,41 +276,29 @@ Proof.
     destruct (lv_tvs lv) as [|[v t] r] eqn:Etv; [congruence|]. cbn [scan_tvs app scanl].
     destruct (N.ltb_spec t 0); [lia|]. cbn [N.eqb orb].
     rewrite N.sub_0_r, <- Hlen. reflexivity.
-  - destruct Hc as [Hc | [Hc | Hc]]; [congruence | lia |].
-    pose proof (scan_tvs_spec i f (lv_history_count lv) (concat (lv_blocks lv)) Hf (lv_tvs lv) 0) as P1.
+  - pose proof (scan_tvs_spec i f (lv_history_count lv) (concat (lv_blocks lv)) Hf (lv_tvs lv) 0) as P1.
     fold (lv_all lv) in P1. rewrite N.sub_0_r, lv_all_length in P1. specialize (P1 eq_refl).
     destruct (scan_tvs i f (lv_history_count lv) 0 (lv_tvs lv)) as [r | | s]; auto.
     destruct P1 as [P1 P2]. rewrite P1.
-    assert (Hh : lv_hcount lv < 2 ^ 64) by (unfold lv_history_count in Hlim; lia).
-    apply (scan_blocks_spec i f (lv_hcount lv) (lv_blocks lv) h0 Hf Hh (lv_blocks lv) 0); auto.
+    apply (scan_blocks_spec i f (lv_hcount lv) (lv_blocks lv) h0 Hf (lv_blocks lv) 0); auto.
     + unfold lv_hcount. pose proof (concat_length_ge _ Hb). lia.
     + unfold lv_hcount. lia.
-    + intros Hn. unfold lv_hcount.
-      destruct (concat (lv_blocks lv)); [congruence | simpl; lia].
-    + unfold lv_all in Hc. apply Exists_app in Hc as [Hc | Hc].
-      * exfalso. apply Exists_exists in Hc as (x & Hx & Hh'). rewrite Forall_forall in P2.
-        apply (P2 x Hx). right. exact Hh'.
-      * apply Exists_exists in Hc as (x & Hx & Hh'). apply Exists_exists. exists x. split; auto.
-        right; exact Hh'.
+    + lia.
 Qed.
 
 (* the versions of a key of a tree with time-sorted versions *)
 Definition tree_tsorted (n : node) : Prop := mv_tsorted (abs n).
 
-(* GetBetween refines the map whenever finalTs = 0, the window is empty, the key is absent, or the
-   key has a version not newer than finalTs.  (Otherwise: get_between_refuted.) *)
-Theorem get_between_partial maxn maxkey maxval h0 n k i f :
+(* GetBetween refines the map: the newest version inside the time window and its revision *)
+Theorem get_between_refines maxn maxkey maxval h0 n k i f :
   root_ok maxn n -> tree_ok maxn maxkey maxval n -> tree_tsorted n ->
-  Forall (fun lv => lv_history_count lv < 2 ^ 64) (flatten n) ->
-  (f = 0 \/ f < i \/
-   match mv_find k (abs n) with Some vs => Exists (fun x => snd x <= f) vs | None => True end) ->
   get_between h0 n k i f = mv_get_between k i f (abs n).
 Proof.
-  intros R [Hs Hok] Tsd Hlim Hc. destruct (lookup_spec maxn k n R Hs) as [L1 L2].
+  intros R [Hs Hok] Tsd. destruct (lookup_spec maxn k n R Hs) as [L1 L2].
   unfold get_between, mv_get_between. rewrite L1 in *.
   destruct (lookup n k) as [lv|] eqn:E; cbn [option_map] in *.
-  - destruct (L2 lv eq_refl) as [Hk Hin]. rewrite Forall_forall in Hok, Hlim.
-    rewrite (lv_between_partial maxkey maxval h0 lv i f (Hok lv Hin) (Hlim lv Hin) Hc).
+  - destruct (L2 lv eq_refl) as [Hk Hin]. rewrite Forall_forall in Hok.
+    rewrite (lv_between_spec maxkey maxval h0 lv i f (Hok lv Hin)).
     destruct (f <? i); auto. apply scanl_between.
     unfold tree_tsorted, mv_tsorted in Tsd. rewrite Forall_forall in Tsd.
     apply (Tsd (abs_lv lv)). rewrite abs_eq. apply in_map. exact Hin.
